@@ -281,6 +281,29 @@ def locate (tree : List (Nat × Nat × Nat)) (name buildID : Nat) : Option Nat :
     (decide (buildID ≠ 0) && decide (e.1 = buildID) && decide (e.2.2 = buildID)) ||
     (decide (e.1 = 0) && decide (e.2.1 = name) && (decide (buildID = 0) || decide (e.2.2 = buildID))))
 
+/-! ## Units: the per-source outcome carries the unit of its sample type
+
+A source reports a value `v` in a unit with integer factor `f` (ns 1, us 10³, …; bytes 1, kB 2¹⁰, …).
+`combineProfiles` converts everything it merges to the finest unit present; the merged value of a
+stack is `unitSum`: the sum of the successful sources' values, each converted to the smallest
+factor among them.  It depends on the multiset of `(factor, value)` pairs only. -/
+
+def minFactor : List (Nat × Nat) → Option Nat
+  | [] => none
+  | x :: xs => match minFactor xs with
+    | none => some x.1
+    | some m => some (min x.1 m)
+
+def convertedSum (m : Nat) : List (Nat × Nat) → Nat
+  | [] => 0
+  | x :: xs => x.2 * (x.1 / m) + convertedSum m xs
+
+/-- (finest factor, sum in that unit); `(0, 0)` for no source -/
+def unitSum (l : List (Nat × Nat)) : Nat × Nat :=
+  match minFactor l with
+  | none => (0, 0)
+  | some m => (m, convertedSum m l)
+
 /-- What the model needs of the chunking facts regenerated from the source (`Gen/FetchConsts.lean`),
 as far as they were recognised (`none` = not recognised, then nothing is claimed): the chunk size
 is positive; consecutive chunks start exactly one chunk length apart (no gap, no overlap) and a
